@@ -4,6 +4,7 @@ ENTRY = {
     "level": "proof",
     "families": [fam("SQL", 400, 20000, opts={"quick": _OPTS, "thorough": dict(_OPTS, sizes="tiny,small,small,mid")})],
     "gen_items": [],
+    "extra_props": ["IQE.Props.C01Pipeline"],
     "rule": "generated statements over generated catalogs (1-3 tables x 2-5 columns BIGINT/INTEGER/DOUBLE(dyadic)/VARCHAR/DATE/BOOLEAN, NULL density 0/10/50/100 %, "
             "small domains, 0-60 rows in 1-4 batches; two catalogs per run carry a table of ~1001-2049 resp. 8193-10001 rows in several batches: tag data:big), primary stratum rotating over filter, case, join, agg, distinct, setop, cte, values, gsets, subquery, sort_limit "
             "with the other strata mixed in; run through ExecutionContext::sql (single-batch and multi-batch registration alternate); oracle = Spec.acceptable on the engine's rows; "
@@ -25,7 +26,7 @@ ENTRY = {
     "min_tags": {"s:filter": 1, "s:join": 1, "s:agg": 1, "s:setop": 1, "s:cte": 1, "s:values": 1, "s:gsets": 1, "s:subquery": 1, "s:sort_limit": 1, "s:distinct": 1, "s:case": 1, "impl:right": 100, "data:big": 8},
     "manifest": {
         "category": "proof",
-        "text": "Lean theorems about the oracle itself, for every plan / catalog / table: the executable bag comparison is exactly multiset equality (List.Perm) and an equivalence; for plans without top-level ORDER BY / LIMIT `acceptable` = 'is a permutation of Spec.run's answer', accepts the reference answer, is invariant under permutation of the engine's rows, and never accepts anything when the reference reports an error; LIMIT/OFFSET over an unordered input accepts the reference answer. Tie: generated SQL over all strata through ExecutionContext::sql judged by Spec.acceptable. C01_pipeline_refines_spec (engine model refines Spec for every plan) is pending the per-operator models of C02/C21-C28/C44 and is NOT claimed.",
+        "text": "CAPSTONE C01_pipeline_refines_spec (IQE/Props/C01Pipeline.lean): the engine modelled as the composition of the switch-off operator models (Engine.Filter, Engine.HashJoin, Engine.Acc, Engine.SortLimit, Engine.Values) returns, for EVERY execution configuration (any re-partitioning/re-chunking of every operator input, either build side, any per-group merge tree, fused or unfused top-k) and every catalog, an answer that Spec.acceptable accepts, on the plan fragment scan/VALUES/filter/project/7 join types/COUNT-SUM-MIN-MAX group-by/DISTINCT/UNION ALL with a top-level ORDER BY / LIMIT (by structural induction on the plan; excluded: INTERSECT/EXCEPT/UNION-distinct, windows, grouping sets, CTE, subquery expressions, AVG and DISTINCT aggregates — covered by their own properties' theorems and by the correspondence runs only); plus C01_pipeline_error_or_right. Lean theorems about the oracle itself, for every plan / catalog / table: the executable bag comparison is exactly multiset equality (List.Perm) and an equivalence; for plans without top-level ORDER BY / LIMIT `acceptable` = 'is a permutation of Spec.run's answer', accepts the reference answer, is invariant under permutation of the engine's rows, and never accepts anything when the reference reports an error; LIMIT/OFFSET over an unordered input accepts the reference answer. Tie: generated SQL over all strata through ExecutionContext::sql judged by Spec.acceptable. C01_pipeline_refines_spec (engine model refines Spec for every plan) is pending the per-operator models of C02/C21-C28/C44 and is NOT claimed.",
         "design_ref": "DESIGN.md §6 C01",
         "level_note": "Trusted: Lean kernel; propext/Classical.choice/Quot.sound; reference semantics IQE.Spec; generator's printer/serializer pair. Partial: the quantifier over statements is sampled (no pipeline model yet); ORDER BY shapes of acceptable_refl need C25's total-preorder lemma. Unchanged tree: violated through the operator properties; inherited failures are attributed to C01-F21 (aggregation NULL handling), C01-F22 (join NULL handling), C01-F23 (subquery NULL handling), C01-F24a/b (set operations, exact model), C01-F03 (an optimizer rule changes the answer) by signature + neutraliser re-run on the real engine; anything else is reported.",
         "technique": "Lean 4 proof over the reference semantics; differential testing of the Rust engine against it on generated SQL with neutraliser-based attribution",
